@@ -18,6 +18,9 @@ RULE = (
     " non-zero units, or a decimal, a negative sign or week form; distinct by "
     "case digest.")
 ASSUMPTIONS = [
+    "years, months and weeks of any size (to 1e20: they are exact integers in "
+    "the library); day counts stay below 1e11 because the library folds days "
+    "into float seconds for == / hash, which is exact only below 2**53 s",
     "only finite numbers; decimals in generated *text* sit on the smallest "
     "unit present (ISO rule); str(d) output may carry decimals on several "
     "units and is still required to round-trip",
@@ -139,7 +142,8 @@ def _short_decimal(draw):
 def st_obj(draw):
     if draw(st.integers(0, 7)) == 0:
         w = draw(st.one_of(st.integers(-10 ** 6, 10 ** 6),
-                           st.sampled_from([0, 1, -1, 52, -53])))
+                           st.integers(-10 ** 20, 10 ** 20),
+                           st.sampled_from([0, 1, -1, 52, -53, 2 ** 53 + 1])))
         return {"kind": "obj", "d": {"weeks": w}}
     sign = draw(st.sampled_from([1, 1, -1]))
     kw = {}
@@ -153,6 +157,10 @@ def st_obj(draw):
         if u in UNITS[:3]:
             v = draw(st.one_of(st.integers(1, 400), st.integers(1, 10 ** 9),
                                st.sampled_from([1, 12, 30, 365])))
+            if u != "days" and draw(st.integers(0, 5)) == 0:
+                # years / months are compared as exact integers: any size
+                v = draw(st.one_of(st.integers(2 ** 53, 10 ** 20),
+                                   st.sampled_from([2 ** 53 + 1])))
         else:
             how = draw(st.integers(0, 5))
             if how <= 1:
@@ -173,6 +181,9 @@ def _num(draw, unit, allow_dec):
     """(text, value) for one designator component."""
     n = draw(st.one_of(st.integers(0, 99), st.integers(0, 10 ** 7),
                        st.sampled_from([0, 1, 60, 24, 12])))
+    if unit in UNITS[:2] and draw(st.integers(0, 7)) == 0:
+        n = draw(st.one_of(st.integers(2 ** 53, 10 ** 20),
+                           st.sampled_from([2 ** 53 + 1, 10 ** 17 + 1])))
     width = draw(st.sampled_from([0, 0, 0, 2, 4]))
     t = "%0*d" % (width, n)
     if allow_dec and draw(st.booleans()):
@@ -190,7 +201,8 @@ def st_text(draw):
     sg = -1 if neg else 1
     pre = "-" if neg else ""
     if draw(st.integers(0, 7)) == 0:
-        n = draw(st.one_of(st.integers(1, 10 ** 6), st.sampled_from([1, 52, 53])))
+        n = draw(st.one_of(st.integers(1, 10 ** 6), st.integers(1, 10 ** 20),
+                           st.sampled_from([1, 52, 53, 2 ** 53 + 1])))
         return {"kind": "text", "text": "%sP%dW" % (pre, n),
                 "expect": {"weeks": sg * n}}
     units = draw(st.lists(st.sampled_from(UNITS), min_size=1, max_size=6,
